@@ -140,3 +140,15 @@ func MkSP(id int) SP {
 
 //go:noinline
 func FPtrS(s SP, k int) int { Counter++; return -4400 - *s.P - k }
+
+// SumTo begins with a loop: its back edge lands inside the first 13 bytes, so a mock WITH an origin placeholder cannot
+// relocate its prologue and goom refuses it inside replaceFunc (after the previous patch of the address was taken off).
+//
+//go:noinline
+func SumTo(n int) int {
+	s := 0
+	for i := 0; i < n; i++ {
+		s += i
+	}
+	return s
+}
